@@ -10,7 +10,9 @@ LEVEL_TEXT = ("Proof + correspondence: Coq model of feaLib's registration rule a
               "explicit script statements, mark/mkmk/curs/abvm/blwm without); theorems: a script named by a languagesystem "
               "statement reaches every generated feature, hence the property holds whenever every script the kerning blocks name "
               "is declared; and a closed witness that the full statement is FALSE of the faithful model when no languagesystem "
-              "names the script (known finding F6). The property (spec_C20) and the model's script list are evaluated with "
+              "names the script (known finding F6); for kerning BETWEEN scripts, the lookup of a bucket is registered under every "
+              "script of that bucket (mergeScripts, Kern/Merge.v, C20_cross_script_bucket_registered_under_all_its_scripts) and "
+              "compiled fonts with chains of cross-script pairs are read back script by script. The property (spec_C20) and the model's script list are evaluated with "
               "vm_compute on the ScriptList/LangSys/Feature structure read from compiled fonts.")
 LEVEL_NOTE = ("Trusted: Coq kernel, hand model, harness, GPOS reader, feaLib. Which script tags the kern block names is taken from "
               "the compiled font (the kern writer's script detection is C05's subject).")
